@@ -172,6 +172,14 @@ def check(pid, tier, only_cfg=None, quiet=False):
     backends = {}
     for r in records:
         backends[r["backend"]] = backends.get(r["backend"], 0) + 1
+    cvc5_recs = [r for r in records if "cvc5" in r]
+    cvc5_counts = {}
+    for r in cvc5_recs:
+        k = r["cvc5"] if r["cvc5"] in ("unsat", "sat", "unknown") else "error"
+        cvc5_counts[k] = cvc5_counts.get(k, 0) + 1
+    if cvc5_recs:
+        backends["cvc5-" + __import__("cvc5").__version__ + " (re-discharged, agree)"] = cvc5_counts.get("unsat", 0)
+    solver_disagreements = [r for r in cvc5_recs if r["cvc5"] == "sat"]
     cover_ok = len(covers) - len(failed_covers)
     xval_cycles = sum(x["cycles"] for res in results for x in res["xvals"])
 
@@ -182,13 +190,16 @@ def check(pid, tier, only_cfg=None, quiet=False):
         "trusted_base": getattr(mod, "TRUSTED", [])
         + [
             "Amaranth 0.5.9 elaborator and NIR cell semantics (cross-checked against Amaranth's simulator, see translator_xval)",
-            "z3 " + __import__("z3").get_version_string(),
+            "z3 " + __import__("z3").get_version_string() + (" (thorough tier: every discharged obligation re-discharged by cvc5, see cvc5_recheck)" if cvc5_recs else ""),
         ],
         "configurations": len(results),
         "configuration_list": [res["cfg"] for res in results][:80],
         "undischarged": [{"name": r["name"], "cfg": r["cfg"], "verdict": r["verdict"]} for r in records if r["verdict"] != "proved" and id(r) not in known_recs][:20],
         "obligations_failing_as_known_findings": len(known_recs),
         "backends": backends,
+        "obligations_using_input_assumptions": sum(1 for r in records if r.get("n_assume")),
+        "cvc5_recheck": {"rechecked": len(cvc5_recs), **cvc5_counts, "time_s": round(sum(r.get("cvc5_time_s", 0) for r in cvc5_recs), 2),
+                         "not_confirmed": [{"name": r["name"], "cfg": r["cfg"], "cvc5": r["cvc5"]} for r in cvc5_recs if r["cvc5"] != "unsat"][:10]},
         "solver_time_s": round(solver_time, 3),
         "max_obligation_time_s": max_obl,
         "covers": {"total": len(covers), "satisfiable": cover_ok},
@@ -251,7 +262,7 @@ def check(pid, tier, only_cfg=None, quiet=False):
         print(f"KNOWN-FINDING: property={pid} {f_['what']} [{len(hits)} matching obligation(s), e.g. {hits[0]['name']} cfg {json.dumps(hits[0]['cfg'], default=str)}]")
     for r, path in zip(new_violations, replay_paths):
         tr = r.get("trace")
-        tail = "" if (tr or r.get("interface_trace") or r.get("bounded_failures")) else " no-failing-input-found"
+        tail = "" if (tr or r.get("interface_trace") or r.get("bounded_failures") or r.get("native_replay")) else " no-failing-input-found"
         p(f"  failed obligation {r['name']} cfg={json.dumps(r['cfg'], default=str)}")
         print(f"VIOLATION property={pid} replay={path}{tail}")
     for res in errors:
@@ -266,11 +277,13 @@ def check(pid, tier, only_cfg=None, quiet=False):
         p(f"  TRANSLATOR MISMATCH vs Amaranth simulator: {x['mismatches'][:2]}")
     for r in translator_disagreements:
         p(f"  TRANSLATOR DISAGREEMENT on counterexample of {r['name']} cfg={r['cfg']}")
+    for r in solver_disagreements:
+        p(f"  SOLVER DISAGREEMENT: z3 unsat, cvc5 sat on {r['name']} cfg={r['cfg']}")
     for c in canary_bad:
         p(f"  CANARY SURVIVED: {c} (contract too weak)")
     if new_violations:
         return 1
-    if errors or failed_covers or xval_bad or translator_disagreements or canary_bad or (n_obl == 0 and not bounded):
+    if errors or failed_covers or xval_bad or translator_disagreements or solver_disagreements or canary_bad or (n_obl == 0 and not bounded):
         if n_obl == 0 and not bounded:
             p("  zero obligations generated")
         return 3
